@@ -14,7 +14,7 @@ IMPORTS = ('From PM Require Import Lib.Bytes Lib.PyStr Http.Url Http.Chunk Http.
            'Net.FirstRequest Net.FirstRequestCases.\nFrom Coq Require Import ZArith.')
 CASE_TYPE = 'case'
 CHECK_FN = 'check_case'
-SHARD = 60
+SHARD = 200
 ANCHOR_FILES = ['proxy/http/handler.py', 'proxy/core/base/tcp_server.py', 'proxy/http/responses.py',
                 'proxy/common/utils.py', 'proxy/http/exception/base.py', 'proxy/http/exception/http_request_rejected.py',
                 'proxy/http/exception/proxy_auth_failed.py', 'proxy/http/exception/proxy_conn_failed.py',
@@ -486,7 +486,10 @@ CANNED = ['PROXY_TUNNEL_ESTABLISHED_RESPONSE_PKT', 'PROXY_TUNNEL_UNSUPPORTED_SCH
 def term_recognise(raw, connect, h, lenient):
     if not h['ok']:
         return 'CRecognise %s %s 0 0 0 []' % (C.coq_bool(connect), cb(raw))
-    return 'CRecognise %s %s %d %d %d %s' % (C.coq_bool(connect), cb(raw), 2 if lenient else 1, h['status'], len(h['headers']), cb(h['body']))
+    # h11 folds repeated identical Content-Length lines into one header; count the lines as sent
+    ncl = sum(1 for ln in raw.split(b'\r\n\r\n', 1)[0].split(b'\r\n')[1:] if ln.split(b':', 1)[0].lower() == b'content-length')
+    nh = len(h['headers']) + max(0, ncl - 1)
+    return 'CRecognise %s %s %d %d %d %s' % (C.coq_bool(connect), cb(raw), 2 if lenient else 1, h['status'], nh, cb(h['body']))
 
 
 def coq_term(case, out):
@@ -776,7 +779,7 @@ def gen_args(rng, wf=True):
     for n in rng.sample(names, rng.randint(0, 4)):
         v = bytes(rng.choice(RVAL) for _ in range(rng.randint(0, 12)))
         hs.append((n, v))
-    if rng.random() < 0.15: hs.append((b'Content-Length', rng.choice([b'0', b'7', b'99'])))
+    if rng.random() < 0.15: hs.append((rng.choice([b'Content-Length', b'Content-Length', b'content-length']), rng.choice([b'0', b'7', b'99'])))
     body = rng.choice([None, b'', b'x', H.rbody(rng, rng.randint(1, 40)), b'y' * rng.choice([9, 10, 11, 99, 100, 101, 999, 1000])])
     status = rng.choice([200, 201, 204, 301, 304, 400, 404, 407, 500, 502, 599, 999, 226])
     a = dict(status=status, version=rng.choice([b'HTTP/1.1', b'HTTP/1.1', b'HTTP/1.0']),
@@ -801,6 +804,8 @@ def gen_args(rng, wf=True):
     elif r == 8: a['version'] = rng.choice([b'HTTP/1', b'HTTP/11', b'http/1.1', b'', b'HTTP/1.1 ', b'HTTP/x.y'])
     elif r == 9: a['no_cl'] = True; hs.append((b'Content-Length', rng.choice([b'3', b'0']))); a['headers'] = hs; a['body'] = b'abcd'
     elif r == 10: a['reason'] = None; a['status'] = rng.choice([200, 404])
+    if a['headers'] is not None:
+        a['headers'] = list(dict(a['headers']).items())      # the argument is a dict: keys are distinct
     return a
 
 
